@@ -3,6 +3,7 @@ package main
 import (
 	"fmt"
 	"os"
+	"sort"
 	"strings"
 	"time"
 
@@ -218,10 +219,21 @@ func senderCmd(out *cq.Out, seed uint64, tier string) {
 				}
 				observed = append(observed, vs)
 			}
+			// the bus hands every message to its own goroutine: the order in which batches reach a subscriber is not the
+			// order in which they were published; batches are compared as a set (ordered by their first version)
+			sort.Slice(observed, func(i, j int) bool {
+				if len(observed[i]) == 0 || len(observed[j]) == 0 {
+					return len(observed[i]) < len(observed[j])
+				}
+				return observed[i][0] < observed[j][0]
+			})
 			if fmt.Sprint(observed) == fmt.Sprint(want) {
 				break
 			}
 			out.Count("sender_script_retries", 1)
+			if os.Getenv("VERIF_DEBUG") != "" {
+				fmt.Fprintf(os.Stderr, "script %d attempt %d B=%d bursts=%v\n observed %v\n want     %v\n", sc, attempt, B, bursts, observed, want)
+			}
 		}
 		var obs []string
 		for _, b := range observed {
@@ -332,7 +344,7 @@ func senderCmd(out *cq.Out, seed uint64, tier string) {
 	fmt.Fprintf(f, "From Coq Require Import List NArith String.\nFrom QV Require Import Sender.Batcher Sender.Sign Run.SenderRun.\nImport ListNotations.\nOpen Scope N_scope.\n")
 	fmt.Fprintf(f, "Definition pcases : list (snap * string) := %s.\n", cq.List(pcases))
 	fmt.Fprintf(f, "Definition bcases : list bcase := %s.\n", cq.List(bcases))
-	fmt.Fprintf(f, "Definition R := Eval vm_compute in (run_print_cases pcases ++ map (fun k => k + 100000) (run_batch_cases bcases)).\nPrint R.\n")
+	fmt.Fprintf(f, "Definition R := Eval vm_compute in (List.app (run_print_cases pcases) (map (fun k => k + 100000) (run_batch_cases bcases))).\nPrint R.\n")
 	f.Close()
 }
 
